@@ -207,8 +207,49 @@ def bounded(chk):
 def run(chk):
     p1_api_resolution(chk)
     p2_driver(chk)
+    p3_scale_length(chk)
     bounded(chk)
     chk.assumptions += [
         "receiver typing is a conservative dataflow inside each function (a name the function itself uses as a node); untyped receivers generate no obligation and are counted in the evidence",
         "fixed-point loops (fix_paragraphs, fix_nesting, remove_breaking_returns): progress is observed by the bounded stand-in only (5 s cpu bound per pass), not proved",
     ]
+
+
+# ----------------------------------------------------------------------------- styleutils.scale_length is total
+def p3_scale_length(chk):
+    """scale_length is called by the passes on attribute values taken from the wikitext (remove_scroll_elements,
+    table width heuristics).  Contract: for whatever parse_length delivers - (None | number, None | one of the four
+    units) - and any reference it returns a number; it never raises."""
+    import z3
+    from pyvc.interp import Explorer
+    from pyvc.values import SReal, SInt, Sym
+    ST = "mwlib/rendering/styleutils.py"
+    ex = Explorer()
+    fn = ex.function(ST, "scale_length")
+
+    def parse_length_contract(I, txt):
+        unit = [None, "pt", "px", "em", "%"][I.choose(5, "unit")]
+        length = None if I.decide(I.fresh("no_number", z3.BoolSort())) else SReal(I.fresh("length", z3.RealSort()))
+        return (length, unit)
+    ex.contracts[f"{ST}:parse_length"] = parse_length_contract
+
+    def harness(I):
+        ref = [None, SReal(I.fresh("reference", z3.RealSort())), 0][I.choose(3, "reference")]
+        out = ex.run_function(I, fn, [I.fresh_str("length_str"), ref])
+        I.oblige("no_raise" if out.returned else f"no_raise[{out.exc!r}]", out.returned)
+        if out.returned:
+            I.oblige("returns_a_number", isinstance(out.value, (int, float)) and not isinstance(out.value, bool) or isinstance(out.value, (SReal, SInt)))
+    chk.prove("styleutils.scale_length", harness, ex, targets=[fn], replay=replay_scale_length)
+
+
+def replay_scale_length(model, obligation):
+    from mwlib.rendering import styleutils
+    for s in ("300px", "300pt", "30em", "50%", "300", "auto", "", "1e3px", "-5px", "%", "px", "1.5.2em", " 12 pt"):
+        for ref in (None, 0, 400.0):
+            try:
+                v = styleutils.scale_length(s, ref)
+            except Exception as e:  # noqa: BLE001
+                return True, {"call": f"scale_length({s!r}, {ref!r})", "raised": f"{type(e).__name__}: {e}"}, "scale_length"
+            if not isinstance(v, (int, float)):
+                return True, {"call": f"scale_length({s!r}, {ref!r})", "returned": repr(v)}, "scale_length"
+    return False, {"cases": 39}, None
